@@ -82,6 +82,20 @@ func (env *Env) compileVal(e Expr) (v Val, err error) {
 
 func (env *Env) lookupType(name string) (types.Type, string) {
 	vc := env.vc
+	if strings.HasPrefix(name, "[]") {
+		et, _ := env.lookupType(name[2:])
+		if et == nil {
+			switch name[2:] {
+			case "int":
+				et = types.Typ[types.Int]
+			case "bool":
+				et = types.Typ[types.Bool]
+			default:
+				cfail("unknown element type in %s", name)
+			}
+		}
+		return types.NewSlice(et), "Int"
+	}
 	ptr := false
 	if strings.HasPrefix(name, "*") {
 		ptr = true
